@@ -509,7 +509,8 @@ std::string sqf::parser::preprocessor::impl_default::instance::handle_arg(::sqf:
                 auto res = try_get_macro(word);
                 if (res.has_value())
                 {
-                    if (res.value().is_callable())
+                    // only un-read the delimiter; at the end of the argument there is none
+                    if (res.value().is_callable() && !part_of_word)
                     {
                         local_fileinfo.move_back();
                     }
